@@ -155,6 +155,19 @@ Theorem integrity_legacy_authcrypt_partial : forall adv hs party E m s k,
 Proof. intros adv hs party E m s k. exact (legacy_auth_lemma adv hs party E m s k). Qed.
 Print Assumptions integrity_legacy_authcrypt_partial.
 
+(* The ECDH-1PU key-encryption key binds the WHOLE received tag (the term as received, not a prefix of it) together
+   with alg, both DH secrets, apu and apv: a wrapped key opens under a KEK derived from another tag / header value
+   never.  This is the step of integrity_jwe_authcrypt that the co-recipient forgeries of the harness exercise
+   (re-encryption; tag = honest ++ forged, forged ++ honest, truncated, extended; iv / ciphertext of other lengths). *)
+Theorem kek_binds_whole_tag : forall a ze zs apu apv tag a' ze' zs' apu' apv' tag' cek c,
+  unwrap (kek_1pu a' ze' zs' apu' apv' tag') (Wrap (kek_1pu a ze zs apu apv tag) cek) = Some c ->
+  tag' = tag /\ apu' = apu /\ apv' = apv /\ ze' = ze /\ zs' = zs /\ c = cek.
+Proof.
+  intros a ze zs apu apv tag a' ze' zs' apu' apv' tag' cek c H. apply unwrap_inv in H.
+  unfold kek_1pu in H. inversion H. repeat split; reflexivity.
+Qed.
+Print Assumptions kek_binds_whole_tag.
+
 (* the mutation grammar of the harness (any protected header, aad, iv, ciphertext, tag; any recipients array made of
    entries whose encrypted key comes from an honest envelope or is junk, with arbitrary headers, in any order and
    number; re-encryption under any key) never leaves the hypothesis of the theorems above *)
